@@ -149,8 +149,14 @@ func (e *Engine) initExt() {
 		f.oblige(st, "SAFE", "strings.Repeat: negative count", pos, Ge(args[1].one(), Zero))
 		return ufResult(f, "strings.Repeat", args, rt)
 	})
-	e.reg("strings.Join", "strings.Join: pure; result depends on the slice contents (unconstrained here)", func(f *Frame, st *State, c *ssa.CallCommon, args []Val, rt types.Type, pos token.Pos) Val {
-		return freshResult(f, st, rt, "join")
+	e.reg("strings.Join", "strings.Join(elems, sep): \"\" for an empty slice, otherwise a string that starts with elems[0] (the rest is unconstrained here)", func(f *Frame, st *State, c *ssa.CallCommon, args []Val, rt types.Type, pos token.Pos) Val {
+		v := freshResult(f, st, rt, "join")
+		vc := f.vc
+		s := args[0]
+		row := Select(vc.get(st, vc.elemComps(elemOf(s.T))[0]), s.arr())
+		vc.fact(Imp(st.reach, Imp(Le(s.len(), Zero), Eq(v.one(), StrT("")))))
+		vc.fact(Imp(st.reach, Imp(Gt(s.len(), Zero), mk(SBool, "str.prefixof", Select(row, Zero), v.one()))))
+		return v
 	})
 	e.reg("strings.Split", "strings.Split(s, sep): returns a fresh slice with len >= 1 (sep non-empty); for a literal separator the result is split.len|sep(s) elements split.at|sep(s, i), both evaluated with the real strings.Split on every string literal of the VC", func(f *Frame, st *State, c *ssa.CallCommon, args []Val, rt types.Type, pos token.Pos) Val {
 		v := freshSlice(f, st, rt, One)
